@@ -5,6 +5,8 @@ CONSTANTS
   Names = {"x", "y"}
   Keys <- AllKeys
   ValChoice <- MCVal
+  OpenCands <- NearLocs
+  MergeCands <- NearPairs
   MaxDepth = 16
   Record = TRUE
   Fat = TRUE
